@@ -47,6 +47,13 @@ type MessageVerifEnumArr struct {
 
 func (*MessageVerifEnumArr) GetID() uint32 { return 203 }
 
+// (v) a message whose own name contains the word "Message"
+type MessageVerifMessageBox struct {
+	V uint8
+}
+
+func (*MessageVerifMessageBox) GetID() uint32 { return 204 }
+
 var verifDialect = &dialect.Dialect{
 	Version: 3,
 	Messages: []message.Message{
@@ -54,6 +61,7 @@ var verifDialect = &dialect.Dialect{
 		&MessageVerifString{},
 		&MessageVerifExt{},
 		&MessageVerifEnumArr{},
+		&MessageVerifMessageBox{},
 	},
 }
 
@@ -80,6 +88,7 @@ func verifSpecs() []verifMsgSpec {
 		{201, 6, 6, append([]byte("VERIF_STRING uint16_t v char name "), 4)},
 		{202, 5, 9, []byte("VERIF_EXT uint32_t b uint8_t a ")},
 		{203, 15, 15, append([]byte("VERIF_ENUM_ARR double f uint32_t k uint8_t modes "), 3)},
+		{204, 1, 1, []byte("VERIF_MESSAGE_BOX uint8_t v ")},
 	}
 }
 
